@@ -9,6 +9,7 @@ pub mod maps;
 pub mod mdparse;
 pub mod memread;
 pub mod pattern;
+pub mod pure;
 pub mod recdest;
 pub mod rng;
 pub mod sanitize;
